@@ -42,7 +42,7 @@ pub fn def() -> CheckDef {
                 ("pos_fixed_point_in_restricted_scope", 30 * m),
                 ("several_patterns", 30 * m),
                 ("near_miss_formulae", 100 * m),
-                ("batch_comparisons", 300 * m),
+                ("batch_comparisons", 1000 * m),
                 ("net_constrained", 100 * m),
             ]
         },
@@ -159,6 +159,22 @@ fn templated(rng: &mut Rng, fopts: &FormOpts, props: &[String]) -> F {
         }
         f
     };
+    if rng.chance(1, 4) {
+        // the same pattern inside two different (restricted) scopes of one formula
+        let mut parts = Vec::new();
+        for dom in [rng.pick(&["d", "p"]).to_string(), rng.pick(&["d", "p"]).to_string()] {
+            let op = *rng.pick(&[Hyb::Bind, Hyb::Exists, Hyb::Forall]);
+            let mut inner = pattern(rng);
+            if rng.coin() {
+                inner = F::Hyb(Hyb::Jump, "y".to_string(), None, Box::new(inner));
+            }
+            let dom = if rng.chance(3, 4) { Some(dom) } else { None };
+            parts.push(F::Hyb(op, "y".to_string(), dom, Box::new(inner)));
+        }
+        let b = parts.pop().unwrap();
+        let a = parts.pop().unwrap();
+        return bin(*rng.pick(&[Bin::And, Bin::Or, Bin::Xor, Bin::Imp]), a, b);
+    }
     let all_scope: Vec<String> = names[..scopes].iter().map(|s| s.to_string()).collect();
     let mut f = pattern(rng);
     if rng.chance(1, 4) {
@@ -287,6 +303,47 @@ fn run(rng: &mut Rng, _idx: u64, tier: Tier) -> CaseOut {
         Call::Panic(p) => {
             out.violate(&crate::libg::panic_signature(&p), format!("batch panic: {p}"), detail(&p));
             return out;
+        }
+    }
+    let _ = drain_events(&mut out);
+    // (4) a second pattern formula evaluated together with the first, in both orders, must give the single results
+    {
+        let mut f2opts = fopts.clone();
+        f2opts.max_quant_depth = fopts.max_quant_depth.min(sys.k as usize).max(1);
+        let f2 = templated(rng, &f2opts, &world.net.names);
+        if f2.quant_depth() <= sys.k as usize {
+            let t2 = f2.canon();
+            if let Call::Ok(single2) = run_ep(Ep::ExtendedDirty, &t2, &sys, &ctx) {
+                for order in [[text.as_str(), t2.as_str()], [t2.as_str(), text.as_str()]] {
+                    match call(|| mc::model_check_multiple_extended_formulae_dirty(order.to_vec(), &sys.graph, &ctx)) {
+                        Call::Ok(r) => {
+                            out.count("batch_comparisons");
+                            let (r1, r2) = if order[0] == text.as_str() { (&r[0], &r[1]) } else { (&r[1], &r[0]) };
+                            if r1 != &orig || r2 != &single2 {
+                                let (bad, badtext, good) = if r1 != &orig { (r1, &text, &orig) } else { (r2, &t2, &single2) };
+                                violate_diff(
+                                    &mut out,
+                                    &world,
+                                    &sys,
+                                    "pattern result in a batch differs from its single evaluation",
+                                    (&format!("{badtext} [in batch {order:?}]"), bad),
+                                    (&format!("{badtext} [alone]"), good),
+                                    vec![("context_sets", sets_json(&world, &sets))],
+                                );
+                                return out;
+                            }
+                        }
+                        Call::Err(e) => {
+                            out.violate("error on a valid batch", format!("Err({e})"), detail(&e));
+                            return out;
+                        }
+                        Call::Panic(p) => {
+                            out.violate(&crate::libg::panic_signature(&p), format!("batch panic: {p}"), detail(&p));
+                            return out;
+                        }
+                    }
+                }
+            }
         }
     }
     let _ = drain_events(&mut out);
